@@ -92,6 +92,11 @@ pub fn all_fronts<F: Family>(b: &[u8], origin: &str, ctx: &mut Ctx) -> CaseResul
         any = true;
         invariants::<F>(&ok.pkt, b, "poll", ctx)?;
     }
+    if let Some(Ok(p)) = F::body_level_decode(b) {
+        any = true;
+        ctx.label("body-level-decoder-accepted");
+        invariants::<F>(&p, b, "body-level decoder", ctx)?;
+    }
     ctx.label(if any { "accepted" } else { "rejected-by-all" });
     if any {
         ctx.label(&format!("accepted-origin:{}", origin));
@@ -150,6 +155,8 @@ pub fn run(env: &mut Env) -> RunResult {
     for l in V5::FIELD_LABELS {
         env.require("c12.invariants.v5", l);
     }
+    env.require("c12.invariants.v3", "body-level-decoder-accepted");
+    env.require("c12.invariants.v5", "body-level-decoder-accepted");
     env.require("c12.invariants.v3", "shared-filter-decoded");
     env.require("c12.invariants.v5", "shared-filter-decoded");
     env.require("c12.invariants.v5", "accepted-origin:byte-mutated");
